@@ -810,7 +810,7 @@ func checkC06(c *Ctx) {
 }
 
 func checkC10(c *Ctx) {
-	c.rule = "MC: all 65536 header-size fields x {body present, one byte short, absent}; all 65536 flags; all 256 protocol ids and info ids; transform counts 0..255 x sizes; all 65536 magic words (MC_TTHeader). TRACE: the same families replayed on the real decoders (quick: size field stride 13, flags stride 31) plus random section orders, repeated sections, interleaved padding, count 0, size fields cutting into sections, every truncation point and perturbed structural bytes of valid frames; DecodeFromBytes, Decode over a bytes reader and Decode over fragmenting stream readers must succeed exactly when Parse does, with the same maps, HeaderLen = 14 + declared, PayloadLen - total = 4 - HeaderLen, ReadLen <= min(14 + declared, len); streams of several framed messages read back to back from one reader, with and without Release in between. BIG COLLECTIONS (Go monitor; the expectation is computed in Go from the data that was encoded, because TLC's map comparison is quadratic): well-formed header sections of 255..9000 entries, both decoders."
+	c.rule = "MC: all 65536 header-size fields x {body present, one byte short, absent}; all 65536 flags; all 256 protocol ids and info ids; transform counts 0..255 x sizes; all 65536 magic words (MC_TTHeader). TRACE: the same families replayed on the real decoders (quick: size field stride 13, flags stride 31) plus random section orders, repeated sections, interleaved padding, count 0, size fields cutting into sections, every truncation point and perturbed structural bytes of valid frames; DecodeFromBytes, Decode over a bytes reader and Decode over fragmenting stream readers must succeed exactly when Parse does, with the same maps, HeaderLen = 14 + declared, PayloadLen - total = 4 - HeaderLen, ReadLen <= min(14 + declared, len); streams of several framed messages read back to back from one reader, with and without Release in between. BIG COLLECTIONS (Go monitor; the expectation is computed in Go from the data that was encoded, because TLC's map comparison is quadratic): well-formed header sections of 255..9000 entries, both decoders. Also hand-built sections repeating one key (4 bytes per pair, up to 16380 pairs): the maps hold the last value."
 	c.MC("MC_TTHeader.tla", "MC_TTHeader.cfg", 4)
 	c.TraceCheck(famTTHC10, tthHostileCases(c))
 	bigHeaderMonitor(c, "big-C10")
